@@ -163,7 +163,9 @@ def classify(unit, out, res, diags, stderr):
         if asm_line and 0 < asm_line <= len(out.lines):
             text = out.lines[asm_line - 1].strip()[:160]
         implicit = bool(fn) and label == implicit_label(fn, unit)
-        panic_kind = msg.startswith("precondition not satisfied") or "arithmetic underflow/overflow" in msg or "division by zero" in msg or "bit shift" in msg
+        # a failed precondition of a PROOF function (lemma_ / ax_ / thm_ call in a proof block) is a hole in the proof, not a panic
+        proof_call = bool(re.search(r"\b(lemma_|ax_|thm_)\w*\s*(::<[^>]*>)?\(", text or ""))
+        panic_kind = (msg.startswith("precondition not satisfied") and not proof_call) or "arithmetic underflow/overflow" in msg or "division by zero" in msg or "bit shift" in msg
         if implicit and unit.get("implicit") == "nondeciding" and panic_kind:
             # CL03 units: a panic is a refusal and no property speaks about panic freedom, so unlabelled callee / index /
             # overflow preconditions do not decide.  Failed loop invariants, assertions and postconditions DO: they carry
